@@ -50,8 +50,12 @@ func (p *grpcPair) close() {
 }
 
 // pingKeep dials id and pings; returns the id that answered ("" on failure) and the connection (kept open by the caller).
+var sharedDialOpts = append(make([]grpc.DialOption, 0, 8), grpc.WithUserAgent("gpv"))
+
 func pingKeep(b *plugin.GRPCBroker, id uint32, timeout time.Duration) (answered string, conn *grpc.ClientConn, err error) {
-	conn, err = b.Dial(id)
+	// every dial of the run passes the SAME caller-owned option slice, which has spare capacity (as a caller that builds
+	// its options once with append would): concurrent dials must not write their per-id dialer into it
+	conn, err = b.DialWithOptions(id, sharedDialOpts...)
 	if err != nil {
 		return "", nil, err
 	}
